@@ -71,7 +71,7 @@ __CPROVER_requires(__CPROVER_is_fresh(self, sizeof(*self)))
 __CPROVER_assigns()
 __CPROVER_ensures(C_SAME(__CPROVER_return_value, spec_term_z(*self, Frequency)))
 //@end
-//@harness h_Term_call_z enforce=GFTerm_call_z props=C01 min_obl=20 reach=1 timeout=120
+//@harness h_Term_call_z enforce=GFTerm_call_z props=C01 min_obl=45 reach=1 timeout=120
 void h_Term_call_z(void)
 {
   GFTerm *t; cplx z;
@@ -116,14 +116,14 @@ __CPROVER_assigns()
 __CPROVER_ensures(C_SAME(__CPROVER_return_value, spec_term_tau(*self, tau, beta)))
 #endif
 //@end
-//@harness h_Term_call_tau_pin enforce=GFTerm_call_tau props=C11 min_obl=20 reach=1 timeout=300 sat=minisat2
+//@harness h_Term_call_tau_pin enforce=GFTerm_call_tau props=C11 min_obl=74 reach=1 timeout=120
 void h_Term_call_tau_pin(void)
 {
   GFTerm *t; double tau, beta;
   GFTerm_call_tau(t, tau, beta);
   REACH("exit");
 }
-//@harness h_Term_call_tau_range enforce=GFTerm_call_tau props=C11 defs=-DVERIF_FP_IEEE,-DVERIF_FP_AXIOM min_obl=20 reach=2 timeout=600
+//@harness h_Term_call_tau_range enforce=GFTerm_call_tau props=C11 defs=-DVERIF_FP_IEEE,-DVERIF_FP_AXIOM min_obl=119 reach=2 timeout=300
 void h_Term_call_tau_range(void)
 {
   GFTerm *t; double tau, beta;
@@ -132,7 +132,7 @@ void h_Term_call_tau_range(void)
 }
 
 /* ---- lemmas: the facts assumed of '*' and '/' in stubs/fp_axiom.h hold for CBMC's bit-precise IEEE-754 operations. */
-//@harness h_lemma_fmul_sign enforce=none props=C11 defs=-DVERIF_FP_IEEE,-DVERIF_FP_AXIOM min_obl=1 reach=1 timeout=300
+//@harness h_lemma_fmul_sign enforce=none props=C11 defs=-DVERIF_FP_IEEE,-DVERIF_FP_AXIOM min_obl=6 reach=1 timeout=120
 void h_lemma_fmul_sign(void)
 {
 #ifdef VERIF_FP_AXIOM
@@ -141,7 +141,7 @@ void h_lemma_fmul_sign(void)
   REACH("exit");
 #endif
 }
-//@harness h_lemma_fdiv_sign enforce=none props=C11 defs=-DVERIF_FP_IEEE,-DVERIF_FP_AXIOM min_obl=1 reach=1 timeout=300
+//@harness h_lemma_fdiv_sign enforce=none props=C11 defs=-DVERIF_FP_IEEE,-DVERIF_FP_AXIOM min_obl=6 reach=1 timeout=120
 void h_lemma_fdiv_sign(void)
 {
 #ifdef VERIF_FP_AXIOM
@@ -150,7 +150,7 @@ void h_lemma_fdiv_sign(void)
   REACH("exit");
 #endif
 }
-//@harness h_lemma_fmul_mag enforce=none props=C11 defs=-DVERIF_FP_IEEE,-DVERIF_FP_AXIOM min_obl=6 reach=1 timeout=600
+//@harness h_lemma_fmul_mag enforce=none props=C11 defs=-DVERIF_FP_IEEE,-DVERIF_FP_AXIOM min_obl=6 reach=1 timeout=900
 void h_lemma_fmul_mag(void)
 {
 #ifdef VERIF_FP_AXIOM
@@ -159,7 +159,7 @@ void h_lemma_fmul_mag(void)
   REACH("exit");
 #endif
 }
-//@harness h_lemma_fdiv_mag enforce=none props=C11 defs=-DVERIF_FP_IEEE,-DVERIF_FP_AXIOM min_obl=6 reach=1 timeout=600
+//@harness h_lemma_fdiv_mag enforce=none props=C11 defs=-DVERIF_FP_IEEE,-DVERIF_FP_AXIOM min_obl=6 reach=1 timeout=900
 void h_lemma_fdiv_mag(void)
 {
 #ifdef VERIF_FP_AXIOM
@@ -243,14 +243,14 @@ __CPROVER_decreases(self->data.n - it.pos)
 //@end
 //@rename cplx_addassign => cplx_addassign
 
-//@harness h_TermList_call_z enforce=TermListGF_call_z props=C01 min_obl=100 reach=2 timeout=600 sat=minisat2
+//@harness h_TermList_call_z enforce=TermListGF_call_z props=C01 min_obl=478 reach=2 timeout=600
 void h_TermList_call_z(void)
 {
   TermListGF *tl; cplx z;
   TermListGF_call_z(tl, z);
   REACH("exit");
 }
-//@harness h_TermList_call_tau enforce=TermListGF_call_tau props=C11 min_obl=100 reach=2 timeout=600 sat=minisat2
+//@harness h_TermList_call_tau enforce=TermListGF_call_tau props=C11 min_obl=478 reach=2 timeout=600
 void h_TermList_call_tau(void)
 {
   TermListGF *tl; double tau, beta;
@@ -271,7 +271,7 @@ __CPROVER_requires(__CPROVER_is_fresh(self, sizeof(*self)))
 __CPROVER_assigns(self->beta, self->MatsubaraSpacing)
 __CPROVER_ensures(D_SAME(self->beta, beta) && C_SAME(self->MatsubaraSpacing, spec_matsubara_spacing(beta)))
 //@end
-//@harness h_Thermal_ctor enforce=Thermal_init1 props=C01 min_obl=20 reach=1 timeout=120 sat=minisat2
+//@harness h_Thermal_ctor enforce=Thermal_init1 props=C01 min_obl=60 reach=1 timeout=120
 void h_Thermal_ctor(void)
 {
   struct Thermal *t; double beta;
@@ -314,24 +314,54 @@ __CPROVER_requires(g_mode == 1 && C_SAME(g_z, spec_matsubara_point(self->beta, M
 __CPROVER_assigns(g_acc, self->Terms.data.last_deref, self->Terms.data.last_acc, self->Terms.data.hits)
 __CPROVER_ensures(TERMLIST_SUM_POST(&self->Terms))
 //@end
-//@harness h_GFP_call_z enforce=GFP_call_z replace=TermListGF_call_z props=C01 min_obl=60 reach=1 timeout=300 sat=minisat2
+//@harness h_GFP_call_z enforce=GFP_call_z replace=TermListGF_call_z props=C01 min_obl=156 reach=1 timeout=120
 void h_GFP_call_z(void)
 {
   struct GreensFunctionPart *p; cplx z;
   GFP_call_z(p, z);
   REACH("exit");
 }
-//@harness h_GFP_of_tau enforce=GFP_of_tau replace=TermListGF_call_tau props=C11 min_obl=60 reach=1 timeout=300 sat=minisat2
+//@harness h_GFP_of_tau enforce=GFP_of_tau replace=TermListGF_call_tau props=C11 min_obl=167 reach=1 timeout=120
 void h_GFP_of_tau(void)
 {
   struct GreensFunctionPart *p; double tau;
   GFP_of_tau(p, tau);
   REACH("exit");
 }
-//@harness h_GFP_call_n enforce=GFP_call_n replace=GFP_call_z props=C01 min_obl=60 reach=1 timeout=300 sat=minisat2
+//@harness h_GFP_call_n enforce=GFP_call_n replace=GFP_call_z props=C01 min_obl=193 reach=1 timeout=120
 void h_GFP_call_n(void)
 {
   struct GreensFunctionPart *p; long n;
   GFP_call_n(p, n);
   REACH("exit");
 }
+
+/* =====================================================================================================================
+ * WHAT IS PROVED, WHAT IS NOT
+ * h_Term_call_z: Term::operator()(z) = Residue/(z - Pole) (formula pin, uninterpreted arithmetic, textbook complex division of stubs/cplx.h).
+ * h_Term_call_tau_pin: Term::operator()(tau,beta) = -R e^{-tau P}/(1 + e^{-beta P}) for P > 0, -R e^{(beta-tau)P}/(e^{beta P} + 1) otherwise (pin).
+ * h_Term_call_tau_range (C11; bit-precise IEEE-754 for + - unary- and comparisons; '*' '/' = uninterpreted functions constrained by the facts
+ *   of stubs/fp_axiom.h; exp = contract stub): for beta > 0 finite, 0 <= tau <= beta, Pole and Residue finite:
+ *   both arguments of exp are numbers <= 0; both denominators are in [1,2]; the result is finite with |Re| <= |Re Residue|,
+ *   |Im| <= |Im Residue|; Residue real >= 0 ==> Re result <= 0, Im result = +-0 (and real <= 0 ==> Re result >= 0).
+ * h_lemma_fmul_sign / fdiv_sign / fmul_mag / fdiv_mag: every fact assumed in stubs/fp_axiom.h holds for CBMC's bit-precise '*' and '/'.
+ *   So the range statement rests on: CBMC's float model + the exp contract.  NOT proved: anything about accuracy.
+ * h_TermList_call_z / _tau: TermList::operator() returns the left-fold sum, starting from 0, of term(args) over the stored terms in
+ *   container order, every stored term exactly once (monitor acc_add + shadow accumulator + ghost position); iterator safety; termination.
+ * h_Thermal_ctor: beta stored, MatsubaraSpacing = I*pi/beta (pin).
+ * h_GFP_call_z / h_GFP_of_tau / h_GFP_call_n (callees replaced by their contracts): Terms is evaluated at z / at (tau, own beta) /
+ *   at MatsubaraSpacing*(2n+1) = (I*pi/beta)*(2n+1) (|n| < 2^61 LIMIT), and the sum is returned unchanged.
+ * ASSUMPTIONS introduced here: exp contract (x <= 0 ==> 0 <= exp x <= 1; exp(+-0) = 1; exp >= 0); std::set iteration = array in
+ *   container order (stubs/ordset.h (A), nothing assumed about the order); Thermal's type invariant MatsubaraSpacing = I*pi/beta
+ *   (pre-condition of h_GFP_call_n, established by h_Thermal_ctor).
+ * MUTANTS (obligation that failed)
+ *   Term(z): z + Pole, Pole - z                       -> GFTerm_call_z.postcondition.1
+ *   Term(tau): Pole < 0                                -> tau_range postcondition.2-.5, exp.assertion.2, d_div_ax.assertion.1; tau_pin postcondition.1
+ *              (tau-beta)*Pole                         -> tau_range postcondition.2-.5, exp.assertion.2;  tau_pin postcondition.1
+ *              +Residue in the first branch            -> tau_range postcondition.4/.5;  tau_pin postcondition.1
+ *              1 - exp(-beta*Pole)                     -> tau_range postcondition.2-.5, d_div_ax.assertion.1;  tau_pin postcondition.1
+ *              exp(-beta*Pole) in the numerator        -> survives tau_range (still in range), killed by tau_pin postcondition.1
+ *   TermList(): res = 1 -> postcondition.1, acc_add.assertion.3, loop_invariant_base.2;  res -= -> loop_invariant_step.2/.3
+ *   GFP: 2n / 2n-1 -> GFP_call_z.precondition.3;  Terms(beta,tau) -> TermListGF_call_tau.precondition.3;  Terms(-z) -> TermListGF_call_z.precondition.3
+ *   Thermal: pi*beta, -I -> Thermal_init1.postcondition.1
+ */
